@@ -19,6 +19,31 @@ def elemJson : Elem → Json
   | .leaf t => Json.mkObj [("leaf", toJson t.id)]
   | .par ts p => Json.mkObj [("par", arr (ts.map fun t => toJson t.id)), ("payload", toJson p)]
 
+def parseOpRef (j : Json) : Except String OpRef := do
+  match j.getObjVal? "plain" with
+  | .ok (Json.str s) => return .plain s.toList
+  | _ => return .inline (← getOptStr j "name") (← getStr j "type")
+
+def parseTagsSpec (j : Json) : Except String TagsSpec :=
+  match j.getObjVal? "tags" with
+  | .ok (Json.str s) => .ok (.one s.toList)
+  | .ok (Json.arr a) => do
+    let l ← a.toList.mapM (fun x => x.getStr?)
+    return .many (l.map String.toList)
+  | _ => .ok .absent
+
+def parseTaskSpec (j : Json) : Except String TaskSpec := do
+  return ⟨← getNat j "id", ← getOptStr j "name", ← parseOpRef (← j.getObjVal? "op"), ← parseTagsSpec j⟩
+
+def parseElemSpec (j : Json) : Except String ElemSpec := do
+  match j.getObjVal? "par" with
+  | .ok v =>
+    let ts ← (← v.getArr?).toList.mapM parseTaskSpec
+    return .par ts (← getNat j "payload")
+  | .error _ => return .leaf (← parseTaskSpec (← j.getObjVal? "leaf"))
+
+def taskJson (t : Task) : Json := arr [toJson t.id, str t.name, str t.opType]
+
 def handle (op : String) (a : Json) : Except String Json := do
   match op with
   | "filter" =>
@@ -36,6 +61,37 @@ def handle (op : String) (a : Json) : Except String Json := do
         if out.length < sched.length then "removed-elements" else "kept-all-elements",
         if (leaves out).length < (leaves sched).length then "removed-leaves" else "kept-all-leaves"]
       return ok (arr (out.map elemJson)) tags
+  | "read_filter" =>
+    -- a raw specification (operations block + challenges) read and filtered: reader model + filter model
+    let block ← (← getArr a "operations").mapM parseOpRef
+    let chs ← (← getArr a "challenges").mapM (fun c => do (← c.getArr?).toList.mapM parseElemSpec)
+    let exclude ← getBool a "exclude"
+    let specs ← getStrList a "filters"
+    match readTrack block chs with
+    | .error _ => return err "TrackSyntaxError" ["unreadable-specification"]
+    | .ok read =>
+      match parseFilters specs with
+      | .error _ => return err "SystemSetupError" ["bad-filter"]
+      | .ok fs =>
+        let out := match readAndFilter block chs exclude fs with
+          | .ok o => o
+          | .error _ => []
+        let ops := match parseOperations block with
+          | .ok o => o
+          | .error _ => []
+        let allSpecs := chs.flatMap specLeaves
+        let plainRefs := allSpecs.filterMap (fun s => match s.op with | .plain n => some n | _ => none)
+        let inlineNames := allSpecs.filterMap (fun s => match s.op with | .inline n ty => some (n.getD ty, ty) | _ => none)
+        let tags := [if exclude then "exclude" else "include",
+          if fs.isEmpty then "no-filters" else "filters",
+          if fs.any (fun f => match f with | .opType _ => true | _ => false) then "type-filter" else "no-type-filter",
+          if plainRefs.any (fun n => (lookupOp ops n).isSome) then "ref-to-block" else "no-ref-to-block",
+          if plainRefs.any (fun n => (lookupOp ops n).isNone) then "ref-to-builtin" else "no-ref-to-builtin",
+          if inlineNames.any (fun (n, ty) => n != ty && plainRefs.contains n) then "inline-named-like-a-reference" else "no-inline-name-clash",
+          if (out.map (fun s => (leaves s).length)).sum < (read.map (fun s => (leaves s).length)).sum then "removed-leaves" else "kept-all-leaves"]
+        return Json.mkObj [("r", arr (out.map fun s => arr (s.map elemJson))),
+          ("read", arr (read.map fun s => arr ((leaves s).map taskJson))),
+          ("tags", arr (tags.map Json.str))]
   | _ => throw s!"unknown op {op}"
 
 end Drivers.TrackFilter
